@@ -25,13 +25,42 @@ Ext(g, h, lg, lh, useRoles, ord, k, f) ==
                                     g.bd[{a, x}].role = h.bd[{b, f[x]}].role }
         IN UNION { Ext(g, h, lg, lh, useRoles, ord, k + 1, f @@ (a :> b)) : b \in cands }
 
-AtomOrder(g) == SetToSeqG(Atoms(g))
+(* atoms in breadth-first order (component by component), so that every atom but the first of a
+   component is adjacent to an atom mapped before it and the candidate sets stay small *)
+RECURSIVE BfsFrom(_, _, _)
+BfsFrom(g, seq, rest) ==
+   IF rest = {} THEN seq
+   ELSE LET done == { seq[i] : i \in DOMAIN seq }
+            front == { a \in rest : \E b \in done : {a, b} \in Bonds(g) }
+            nxt == IF front # {} THEN CHOOSE a \in front : TRUE ELSE CHOOSE a \in rest : TRUE
+        IN BfsFrom(g, Append(seq, nxt), rest \ {nxt})
+AtomOrder(g) == BfsFrom(g, <<>>, Atoms(g))
 
 (* all witnesses; lg / lh are the atom labels that must be preserved       *)
 IsosL(g, h, lg, lh, useRoles, useStereo, useChanges) ==
    IF Cardinality(Atoms(g)) # Cardinality(Atoms(h)) THEN {}
    ELSE { f \in Ext(g, h, lg, lh, useRoles, AtomOrder(g), 1, <<>>) :
              IsWitnessL(g, h, f, lg, lh, useRoles, useStereo, useChanges) }
+
+(* existence only: stops at the first witness (TLC evaluates \E lazily) *)
+RECURSIVE ExExt(_, _, _, _, _, _, _, _, _, _)
+ExExt(g, h, lg, lh, useRoles, useStereo, useChanges, ord, k, f) ==
+   IF k > Len(ord) THEN IsWitnessL(g, h, f, lg, lh, useRoles, useStereo, useChanges)
+   ELSE LET a == ord[k]
+            used == { f[x] : x \in DOMAIN f }
+            cands == { b \in Atoms(h) \ used :
+                         /\ lg[a] = lh[b]
+                         /\ Deg(g, a) = Deg(h, b)
+                         /\ \A x \in DOMAIN f :
+                              /\ ({a, x} \in Bonds(g)) = ({b, f[x]} \in Bonds(h))
+                              /\ (useRoles /\ {a, x} \in Bonds(g)) =>
+                                    g.bd[{a, x}].role = h.bd[{b, f[x]}].role }
+        IN \E b \in cands : ExExt(g, h, lg, lh, useRoles, useStereo, useChanges, ord, k + 1, f @@ (a :> b))
+ExistsIsoL(g, h, lg, lh, useRoles, useStereo, useChanges) ==
+   /\ Cardinality(Atoms(g)) = Cardinality(Atoms(h))
+   /\ ExExt(g, h, lg, lh, useRoles, useStereo, useChanges, AtomOrder(g), 1, <<>>)
+ExistsIso(g, h) == g.kind = h.kind /\
+   ExistsIsoL(g, h, g.el, h.el, HasRoles(g.kind), HasStereo(g.kind), HasChanges(g.kind))
 
 (* default labels: the elements; roles/stereo/changes according to the kind *)
 Isos(g, h) == IsosL(g, h, g.el, h.el, HasRoles(g.kind), HasStereo(g.kind), HasChanges(g.kind))
